@@ -127,6 +127,7 @@ pub proof fn lemma_aggregate_covers_composition(s: Seq<RoutingFees>, k: int, v: 
 //@ret r
 //@ensures P C16 aggregated-fee-is-the-fold-of-the-rounded-up-composition-steps
     r is Ok ==> (r->Ok_0.0 as int, r->Ok_0.1 as int) == agg(hops_fees@, 0),
+    hops_fees@.len() == 0 ==> r is Ok,   // no hops, nothing to overflow (used by u16b: an overflow names a hop that exists)
 //@rw nth=1 R9
     .and_then(|$f:ident| $b)
 //@with
